@@ -6,7 +6,7 @@ ENTRY = "enc"
 GROUP = "unsized"
 BIN = "vh_unsized"
 HARNESS_ARGS = ["enc"]
-SECONDARY = ["c05_sized"]
+SECONDARY = ["c05_sized", "c05_client"]
 COQ_TARGETS = ["Properties/C05.vo"]
 
 RULE = ("case = one of the harness's shapes (lists with every prefix width, trailing bytes, lists/maps of unsized "
